@@ -1,5 +1,6 @@
 pub mod c01;
 pub mod c02;
+pub mod c04;
 
 use crate::report::{Report, Tier};
 use serde_json::Value;
@@ -64,6 +65,14 @@ pub fn plan(id: &str) -> Option<Plan> {
             assumptions: BASE_ASSUMPTIONS.to_vec(),
             floor: 50,
             engines: vec![Engine { name: "sim", salt: 1, quick: 6000, thorough: 400_000, serial: false, run: Box::new(|s, t| c02::scenario("C15", s, t)) }],
+            extra: None,
+        },
+        "C04" => Plan {
+            id: "C04",
+            rule: "scenario = seeded breaker config (count/time window, sizes, thresholds incl. 0 and 1, minimum below/equal/above/default, permitted 1-4, slow-call detection, custom classifier, presets) + sequential history of 5-260 steps over {ok, fail, slow, class-B error, flagged ok, wait d, force_open, force_closed, reset}; after every step state().await/state_sync()/is_open()/metrics().state and 'inner invoked' are compared with a forking reference machine; non-trivial iff >=1 transition and history longer than the window; distinct = (state/invoked/instant sequence, config) signature",
+            assumptions: BASE_ASSUMPTIONS.to_vec(),
+            floor: 50,
+            engines: vec![Engine { name: "sim", salt: 1, quick: 6000, thorough: 400_000, serial: false, run: Box::new(|s, t| c04::scenario(s, t)) }],
             extra: None,
         },
         _ => return None,
